@@ -38,11 +38,29 @@ def run_histories(chk, binary, scripts, jobs=16, timeout=300):
     return traces
 
 
+def corpus_scripts(chk, zoo, paths, copies=2):
+    """histories that exposed a seeded change or a genuine defect (corpus/<check>/*.json, written by bin/mkcorpus):
+    replayed first in every run, each a few times because placement ties are broken by Go map order"""
+    d = os.path.join(VERIF, 'corpus', chk.prop)
+    out = []
+    for fn in sorted(os.listdir(d)) if os.path.isdir(d) else []:
+        sc = json.load(open(os.path.join(d, fn)))
+        mname = sc['machine_name']
+        m = next((z for z in zoo if z['name'] == mname), None)
+        if m is None:
+            continue        # a machine only one check adds to its zoo
+        for i in range(copies):
+            s = dict(sc)
+            s.update(name='k%s-%d' % (fn[:-5].replace('-', ''), i), machine=paths[mname], _machine=m)
+            out.append(s)
+    return out
+
+
 def maybe_replay(chk, replay, scripts, zoo, paths, copies=12):
     """--replay FILE: instead of the generated histories run the recorded one, `copies` times
     (the implementation breaks placement ties by Go map order, so one run is not enough)"""
     if not replay:
-        return scripts
+        return corpus_scripts(chk, zoo, paths) + scripts
     d = json.load(open(replay))
     sc = d.get('replay') or {}
     if 'events' not in sc:
